@@ -259,3 +259,10 @@ Theorem C01_mapcar_collects_primary_values :
   forallb (fun m => match fst (run m 60 w_mapcar_values) with Ok (VInt 2) => true | _ => false end) [Slip; Ref; Chk] = true.
 Proof. exact mapcar_collects_primary_values. Qed.
 Print Assumptions C01_mapcar_collects_primary_values.
+
+(* dolist / dotimes (repo_fixes/C01-18): the list / count form contributes its primary value, in every mode. *)
+Theorem C01_loop_form_primary_value :
+  forallb (fun m => match fst (run m 60 w_dotimes_values), fst (run m 60 w_dolist_values) with
+                    | Ok (VInt 2), Ok (VInt 3) => true | _, _ => false end) [Slip; Ref; Chk] = true.
+Proof. exact loop_form_primary_value. Qed.
+Print Assumptions C01_loop_form_primary_value.
